@@ -61,7 +61,15 @@ def to_payload(pid, prog, brokers=1):
             faults[str(i)] = fault_of_num(f)
     if any(c in NW for c, _ in prog):
         brokers = 1      # the model of nowait sends assumes one leader for both partitions
-    return {"id": pid, "calls": [CALLS[c] for c, _ in prog], "faults": faults, "brokers": brokers}
+    out = {"id": pid, "calls": [CALLS[c] for c, _ in prog], "faults": faults, "brokers": brokers}
+    # a quarter of the programs (chosen by their content) run against an older broker release that supports
+    # transactions: the state machine does not depend on the request versions
+    h = sum((i + 1) * (c * 31 + f) for i, (c, f) in enumerate(prog))
+    if h % 4 == 0:
+        from simkit import profiles
+        name = profiles.TRANSACTIONAL[(h // 4) % len(profiles.TRANSACTIONAL)]
+        out["api_ranges"] = profiles.api_ranges(name)
+    return out
 
 
 def exn_num(name, errno):
